@@ -58,6 +58,7 @@ class KeyedADMM:
 class C14(Check):
     pid = 'C14'
     validate = True
+    fork_logging = True       # DEBUG logging on/off is a symbolic input of every path
     anchors = [('src/fast_ticc/main_loop.py', 'fit_stacked_data'), ('src/fast_ticc/main_loop.py', '_init_task_pool'),
                ('src/fast_ticc/graphical_lasso.py', 'optimize_markov_random_fields'),
                ('src/fast_ticc/graphical_lasso.py', '_retrieve_optimization_results'),
